@@ -16,21 +16,21 @@ Print Assumptions C19_binding_truthful.
 
 (* Allocate success reports the source as mapped address, the relayed address of the allocation just
    created (at which peers' datagrams reach exactly this allocation, C02) and the lifetime armed *)
-Theorem C19_allocate_truthful : forall cfg s src tid c tr lt fam df rp s' acts attrs,
-  step cfg s (EReq src tid c (RqAllocate tr lt fam df rp) false) = (s', acts) ->
+Theorem C19_allocate_truthful : forall cfg s src tid c tr lt fam df rp ep rt mt s' acts attrs,
+  step cfg s (EReq src tid c (RqAllocate tr lt fam df rp ep rt mt) false) = (s', acts) ->
   In (Success src MAllocate tid attrs) acts -> find_alloc src (allocs s) = None ->
   exists a relay, allocs s' = allocs s ++ [a] /\ a_client a = src /\ a_relay a = relay /\
     a_perms a = [] /\ a_chans a = [] /\ a_dl a = now s + granted_lifetime cfg lt /\
-    attrs = [SRelayed relay; SLifetime (granted_lifetime cfg lt / sec); SMapped src] /\
+    attrs = [SRelayed relay; SLifetime (granted_lifetime cfg lt / sec); SMapped src] ++ (if ep then [SToken mt] else []) /\
     (exists uid, authenticate cfg s c = AuthOK uid /\ a_user a = uid).
 Proof. exact allocate_success. Qed.
 Print Assumptions C19_allocate_truthful.
 
 (* a retransmitted Allocate (same transaction id) gets the same success again and a different one
    gets 437; neither creates or changes anything *)
-Theorem C19_retransmit_idempotent_and_437 : forall cfg s src tid c tr lt fam df rp a uid,
+Theorem C19_retransmit_idempotent_and_437 : forall cfg s src tid c tr lt fam df rp ep rt mt a uid,
   authenticate cfg s c = AuthOK uid -> find_alloc src (allocs s) = Some a ->
-  step cfg s (EReq src tid c (RqAllocate tr lt fam df rp) false) =
+  step cfg s (EReq src tid c (RqAllocate tr lt fam df rp ep rt mt) false) =
     (s, if (a_tid a =? tid)%N then [Success src MAllocate tid (a_cache a)] else [Error src MAllocate tid 437%N false]).
 Proof. exact allocate_existing. Qed.
 Print Assumptions C19_retransmit_idempotent_and_437.
@@ -40,3 +40,26 @@ Theorem C19_unknown_attributes : forall cfg s src tid c r,
   step cfg s (EReq src tid c r true) = (s, [Error src (req_method r) tid 420%N false]).
 Proof. exact unknown_attributes_420. Qed.
 Print Assumptions C19_unknown_attributes.
+
+(* EVEN-PORT: a success means an even relayed port, the minted RESERVATION-TOKEN in the response (and hence in
+   the cached success a retransmission gets), and a 30 s reservation of the next-higher port *)
+Theorem C19_even_port : forall cfg s src tid c tr lt fam df rp rt mt s' acts attrs,
+  step cfg s (EReq src tid c (RqAllocate tr lt fam df rp true rt mt) false) = (s', acts) ->
+  In (Success src MAllocate tid attrs) acts -> find_alloc src (allocs s) = None ->
+  exists p, rp = Some p /\ N.even p = true /\ In (SToken mt) attrs /\
+            rsvs s' = rsvs s ++ [{| r_tok := mt; r_port := p; r_dl := now s + rsv_lifetime |}].
+Proof. exact allocate_evenport. Qed.
+Print Assumptions C19_even_port.
+
+(* RESERVATION-TOKEN: accepted only without EVEN-PORT, for a live reservation, on exactly the reserved port *)
+Theorem C19_reservation_token : forall cfg s src tid c tr lt fam df rp ep t mt s' acts attrs,
+  step cfg s (EReq src tid c (RqAllocate tr lt fam df rp ep (APresent t) mt) false) = (s', acts) ->
+  In (Success src MAllocate tid attrs) acts -> find_alloc src (allocs s) = None ->
+  ep = false /\ exists r, find_rsv t (rsvs s) = Some r /\ rp = Some (r_port r + 1)%N.
+Proof. exact allocate_with_token. Qed.
+Print Assumptions C19_reservation_token.
+
+Theorem C19_reservation_expiry : forall s dt s' acts r,
+  h_tick s dt = (s', acts) -> (In r (rsvs s') <-> In r (rsvs s) /\ now s + Z.max 0 dt < r_dl r).
+Proof. exact reservation_expiry. Qed.
+Print Assumptions C19_reservation_expiry.
